@@ -236,6 +236,11 @@ func buildAcc(s accSpec) *vmcommon.OutputAccount {
 		o.StorageUpdates = map[string]*vmcommon.StorageUpdate{"k": {Offset: []byte("k"), Data: []byte{1}}}
 	case 3:
 		o.StorageUpdates = map[string]*vmcommon.StorageUpdate{"k": {Offset: []byte("k"), Data: []byte{2}}, "j": {Offset: []byte("j"), Data: []byte{1}}}
+	case 4:
+		// an update with empty data (a deletion) is an update like any other: the later one wins
+		o.StorageUpdates = map[string]*vmcommon.StorageUpdate{"k": {Offset: []byte("k"), Data: []byte{}}}
+	case 5:
+		o.StorageUpdates = map[string]*vmcommon.StorageUpdate{"k": {Offset: []byte("k"), Data: nil}, "m": {Offset: []byte("m"), Data: []byte{3}}, "j": {Offset: []byte("j"), Data: []byte{}}}
 	}
 	if s.code == 1 {
 		o.Code, o.CodeMetadata, o.CodeDeployerAddress = []byte("x"), []byte{1, 0}, []byte("D")
@@ -275,6 +280,18 @@ func accSpecs(withCode bool) []accSpec {
 								}
 							}
 						}
+					}
+				}
+			}
+		}
+	}
+	// storage updates with empty data, over a sub-product of the other dimensions
+	for addr := 0; addr < 2; addr++ {
+		for bal := 0; bal < 2; bal++ {
+			for delta := 0; delta < 4; delta++ {
+				for st := 4; st < 6; st++ {
+					for tr := 0; tr < 4; tr += 3 {
+						out = append(out, accSpec{addr, 0, bal, delta, st, 0, tr, 0})
 					}
 				}
 			}
